@@ -47,6 +47,39 @@ func TestVerifC07(t *testing.T) {
 	r.Note("fully_mutated_messages", len(full))
 	r.Sample(hk.D{"message": full[2].detail()["lens"], "mutations": "every single-bit flip of ciphertext, tag, nonce and aad; every truncation; 1..32-byte extensions; swapped nonce/aad"})
 
+	// forgery by length wrap: a message sealed under aad' must not open under 0^(2^29) || aad' (nor the
+	// other way round); leading zero blocks change nothing but the length block
+	{
+		const zeros = 1 << 29
+		key, nonce, tail, pt := rng.Bytes(16), rng.Bytes(12), rng.Bytes(19), rng.Bytes(40)
+		huge := make([]byte, zeros+len(tail))
+		copy(huge[zeros:], tail)
+		g := ref.NewGCM(key)
+		short := g.Seal(nonce, pt, tail, 16)
+		long := g.SealZeroPrefixedAAD(nonce, pt, zeros, tail, 16)
+		for _, asm := range paths() {
+			asm := asm
+			if !asm && !hk.Thorough() {
+				continue
+			}
+			withAsm(asm, func() {
+				a, err := newAEAD(key, 12, 16)
+				if err != nil {
+					return
+				}
+				if out, err := a.Open(nil, nonce, short, huge); err == nil {
+					r.Violation("forgery-accepted:"+pathName(asm)+":zero-prefixed-aad", hk.D{"key": hk.Hex(key), "released": hk.Hex(out)})
+				}
+				if _, err := a.Open(nil, nonce, long, tail); err == nil {
+					r.Violation("forgery-accepted:"+pathName(asm)+":zero-prefix-removed", hk.D{"key": hk.Hex(key)})
+				}
+				if out, err := a.Open(nil, nonce, long, huge); err != nil || !bytes.Equal(out, pt) {
+					r.Violation("authentic-message-rejected:"+pathName(asm)+":aad>=2^29-bytes", hk.D{"key": hk.Hex(key)})
+				}
+				r.EvalN(pathName(asm)+"|aad>=2^29-bytes", 3)
+			})
+		}
+	}
 	for _, asm := range paths() {
 		asm := asm
 		withAsm(asm, func() {
